@@ -146,8 +146,9 @@ class Interp:
             # positions handed over by address are re-based by the callee (adjustCapacity(n, v, &position))
             for a in args:
                 a_ = A.strip(a)
-                if a_.get('k') == 'un' and a_.get('op') == '&':
-                    t = A.strip(a_['sub'])
+                is_addr = (a_.get('k') == 'un' and a_.get('op') == '&') or (a_.get('k') == 'call' and A.cshort(a_) in ('addressof', '__addressof') and a_.get('args'))
+                if is_addr:
+                    t = A.strip(a_['sub'] if a_.get('k') == 'un' else a_['args'][0])
                     if t.get('k') == 'ref' and t.get('dk') == 'param' and st.params.get(t['idx'], TOP)[0] == 'ptr':
                         p = st.params[t['idx']]
                         st.params[t['idx']] = ('ptr', newver, p[2])
